@@ -150,7 +150,12 @@ def generate(seed: int, tier: str = "quick") -> dict:
     gen.sanitize_descs(descs)
     cfg.update(descs=descs, fit=fit, new=new, params=params, chunks=chunks)
     cfg["rot_params"] = None
-    if spec.rotator and rng.random() < 0.45:
+    with_rot = bool(spec.rotator) and rng.random() < 0.45
+    if with_rot and fam == "single" and rng.random() < 0.7:
+        # as many modes as the data allow: a rotation of 4-5 modes of a flat spectrum re-ranks them, which is
+        # what exercises the post-compute sorting bookkeeping
+        params["n_modes"] = max(int(params["n_modes"]), min(5, max(2, models._rank(descs["D0"]))))
+    if with_rot:
         cfg["rot_params"] = models.draw_rotator_params(rng, params, lazy=True if deferred else False)
         if cfg["rot_params"]["compute"]:
             # an eager rotation of loadings that are still lazy (cross-set PCA/whitener matrices are never
@@ -163,8 +168,10 @@ def generate(seed: int, tier: str = "quick") -> dict:
                                 transient=0.06 if mix in ("transient", "all") else 0.0,
                                 stall=0.15 if mix in ("stall", "all") else 0.0, purity=1.0).to_json()
     cfg["fault_compute"] = None
-    if deferred and rng.random() < 0.35:
-        cfg["fault_compute"] = {"at": rng.randint(1, 60), "exc": rng.choice(["InjectedFault", "MemoryError", "OSError"])}
+    # (a deferred rotator's compute() is where sorting bookkeeping and loading meet: interrupted more often)
+    if deferred and rng.random() < (0.6 if cfg["rot_params"] else 0.35):
+        cfg["fault_compute"] = {"at": rng.randint(1, 60), "exc": rng.choice(["InjectedFault", "MemoryError", "OSError"]),
+                                "call": rng.choice([1, 1, 2, 3, 4, 5])}
     cfg["s1"] = deferred and rng.random() < (0.3 if tier == "quick" else 0.6)
     cfg["compute_twice"] = rng.random() < 0.6
     nm = int((cfg["rot_params"] or params)["n_modes"])
@@ -489,8 +496,11 @@ def execute(cfg: dict, *, stop_at_first=True, trace=False) -> RunResult:
                 fc = cfg["fault_compute"]
                 sim.cfg.permanent_at = int(fc["at"])
                 sim.cfg.permanent_exc = fc["exc"]
+                sim.cfg.permanent_call = int(fc.get("call", 1))
+                sim.cfg.armed_calls = 0
                 o = oracle.capture(target_s.compute)
                 sim.cfg.permanent_at = None
+                sim.cfg.armed_calls = 0
                 if not o.ok and o.exc_type == fc["exc"] and "injected" in o.exc_msg:
                     counts["task_faults"] += 1
                     probes.add("permanent fault inside compute() then clean recompute")
